@@ -430,6 +430,7 @@ def c05(ctx):
     rep.rule("C05.R1", "PAIR: in every function that pushes or pops an Environment scope, the scope depth is 0 at every non-error "
              "return, each block body runs at depth exactly 1, and between two executions of a body there is a pop and a fresh push; "
              "every ExecStmt::visit_block call site that executes a construct's body lies in such a bracket")
+    create_on_any_lookup_failure(ctx)
     rep.rule("C05.R2", "lookup order: every scope walk is symbols.iter().rev() .. find(stop_searching) (innermost first; stop at a hit or a "
              "non-NotFound error); creation goes to symbols.last_mut()")
     rep.rule("C05.R3", "pronoun referent: every public Environment method that takes a variable name and returns a value reference "
@@ -447,3 +448,38 @@ def c05(ctx):
     pronoun_rule(ctx, env)
     call_protocol_rule(ctx, env)
     return_value_rule(ctx)
+
+
+
+def create_on_any_lookup_failure(ctx):
+    """C05.R6: a write to a name creates the variable whenever the lookup does not find a *variable* -- whatever the reason"""
+    F, rep = ctx.F, ctx.rep
+    rep.rule("C05.R6", "a variable first assigned in a body is created in the innermost scope: in the write visitor, every failure edge of "
+             "lookup_var_mut leads, on every path, to create_var (an unknown name and a name that is a function in an enclosing scope "
+             "alike) -- no kind of lookup failure is turned into an error of the assignment")
+    n = 0
+    for fn in F.all_bodies(tests=False):
+        if fn.file != "src/exec/write_val.rs":
+            continue
+        for lb, lt in fn.calls():
+            if (callee_def(lt) or "").endswith("::lookup_var_mut"):
+                n += 1
+                from .. import tables
+                err_t = None
+                for sb in range(len(fn.blocks)):
+                    sw = tables.arms_complete(fn, sb)
+                    if sw and "Err" in sw[2] and "Ok" in sw[2] and any(d[0] == "call" and d[1] == lb for d, _ in origins(fn, {"copy": {"l": sw[0]["l"], "p": []}})):
+                        # the branch right after the call (later switches on the same discriminant are drop elaboration)
+                        if err_t is None and not fn.blocks[sb].get("cleanup"):
+                            err_t = sw[2]["Err"]
+                creates = [bi for bi, t in fn.calls() if (callee_def(t) or "").endswith("::create_var")]
+                if err_t is None:
+                    ok, why = False, "no branch on the result of lookup_var_mut found"
+                else:
+                    # a normal or error return reachable from the failure edge without passing create_var
+                    reach = fn.reachable(err_t, avoid=creates)
+                    exits = [b for b in reach if fn.term(b)["k"] == "return"]
+                    ok = bool(creates) and not exits
+                    why = "" if ok else "after a failed lookup the write can finish without create_var: some lookup failures (a function of that name in an enclosing scope) become an error instead of creating a local"
+                rep.ob("C05.R6", "create-on-any-lookup-failure::%s" % common.top_fn(F, fn).path, ok, why, fn.loc(lt["line"]), how="Err(_) -> create_var(name)? on every path")
+    rep.floor("C05.R6", n, 1, "lookup_var_mut sites in the write visitor")
